@@ -12,6 +12,9 @@ TITLE = {
 }
 
 
+INSTR_SOURCES = ("kernel/multi_aes/aes/aesmode.cpp", "kernel/multi_aes/aes/aes.cpp")
+
+
 def cfgs_quick():
     """(bufsz, sanitize, args, nshards). bound = preemption bound (context switches at blocking points are free,
     CHESS-style); delay=1 = delay bounding (every departure from the canonical scheduler costs one)."""
@@ -46,26 +49,34 @@ def cfgs_quick():
         # end to end through runcrypt with the real AES streams, compared with the reference file
         for cm in (1, 2):
             L.append((2, "none", dict(T=2, len=40, enc=enc, bound=1, scenario="e2e", cmode=cm, hmode=cm), 1))
+        # the same end-to-end run with scheduling points INSIDE the real stream code (function entry/exit callbacks):
+        # two workers interleaved within runcry()/runaes_128bit(); catches state shared between the per-worker streams
+        for cm in (0, 1, 2, 3, 4):
+            L.append((2, "none", dict(T=2, len=40, enc=enc, bound=1, scenario="e2e", cmode=cm, hmode=0, instr=1), 1))
     return L
 
 
 def cfgs_thorough():
     L = []
     for enc in (1, 0):
-        for ln in (0, 1, 15, 16, 17, 31, 32, 33, 47, 48, 63, 64, 65, 96, 97):
-            L.append((2, "none", dict(T=1, len=ln, enc=enc, sleep=1), 1))   # all interleavings, no bound
+        for ln in (0, 1, 15, 16, 17, 31):
+            L.append((2, "none", dict(T=1, len=ln, enc=enc, sleep=1), 1))   # all interleavings, no bound (sleep sets over access footprints)
+        for ln in (0, 15, 16, 31, 32, 33, 47, 48, 63, 64, 65, 96, 97):
+            L.append((2, "none", dict(T=1, len=ln, enc=enc, bound=5), 1))
         for ln in (0, 15, 16, 31, 32, 40, 47, 48, 63):
             L.append((2, "none", dict(T=2, len=ln, enc=enc, bound=3), 4))
-        for ln in (0, 16, 31):
-            L.append((2, "none", dict(T=2, len=ln, enc=enc, sleep=1), 1))   # unbounded, sleep sets
+        # unbounded for two workers: pad-only input, one-block chunks (6.3 M executions, ~290 distinct states, 12 min on 16 cores when measured)
+        L.append((1, "none", dict(T=2, len=0, enc=enc, sleep=1), 16))
         for ln in (64, 70, 95, 96, 100):
             L.append((2, "none", dict(T=2, len=ln, enc=enc, bound=2), 4))
         for ln in (16, 40):
             L.append((2, "none", dict(T=2, len=ln, enc=enc, bound=2, spurious=1), 2))
         for ln in (0, 16, 40, 64, 100, 130):
             L.append((2, "none", dict(T=3, len=ln, enc=enc, bound=1), 1))
-        for ln in (16, 40, 70):
+        for ln in (16, 40):
             L.append((2, "none", dict(T=3, len=ln, enc=enc, bound=2), 8))
+        for ln in (70, 100, 130):
+            L.append((2, "none", dict(T=3, len=ln, enc=enc, bound=3, delay=1), 4))
         for ln in (16, 70, 130, 170):
             L.append((2, "none", dict(T=4, len=ln, enc=enc, bound=1), 2))
         for ln in (0, 15, 16, 17, 32, 40, 48):
@@ -86,23 +97,30 @@ def cfgs_thorough():
 BUFFER_FUNCS = ("iobuffer::load_buffer", "iobuffer::export_buffer", "iobuffer::get_entry", "iobuffer::get_size", "::runcry", "ChainEnc", "ChainDec")
 
 
-def tsan_aux(tier):
-    """Auxiliary free-running ThreadSanitizer pass (sampling; never counted as exhaustive). Returns (info, violations)."""
+STREAM_FUNCS = ("::runcry", "runaes_128bit", "AesCTR", "AesCBC", "AesCFB", "AesOFB", "AesECB", "Aesmode::", "aeshandle", "encryaes", "decryaes", "keyhandle")
+
+
+def tsan_aux(tier, which="pipe"):
+    """Auxiliary free-running ThreadSanitizer pass (sampling; never counted as exhaustive). Returns (info, violations).
+    which="pipe": toy streams, reports on chunk-buffer state belong to C14; which="streams": the real AES stream objects,
+    reports inside the stream code belong to C03 (workers must not share anything through their streams)."""
     import re
     import subprocess
-    exe = c.build_exe("tsan_pipe", ["harness/tsan_pipe.cpp"], defs=["-DWENCRY_VERIF_BUF_SZ=2", "-DWENCRY_VERIF_HBUF_SZ=2"], sanitize="thread", with_sched=False, libs=[],
+    name = "tsan_pipe" if which == "pipe" else "tsan_streams"
+    exe = c.build_exe(name, ["harness/%s.cpp" % name], defs=["-DWENCRY_VERIF_BUF_SZ=2", "-DWENCRY_VERIF_HBUF_SZ=2"], sanitize="thread", with_sched=False, libs=[],
                       repo_sources=["kernel/multi_aes/multicry.cpp", "kernel/multi_aes/multi_buffergroup.cpp", "kernel/multi_aes/aes/aes.cpp", "kernel/multi_aes/aes/aesmode.cpp"])
     env = dict(os.environ)
     env["TSAN_OPTIONS"] = "halt_on_error=0:report_signal_unsafe=0:exitcode=0:history_size=4"
-    runs = 600 if tier == "thorough" else 150
+    runs = (600 if tier == "thorough" else 150) if which == "pipe" else (200 if tier == "thorough" else 40)
     try:
-        p = subprocess.run([exe, "runs=%d" % runs], stdout=subprocess.PIPE, stderr=subprocess.PIPE, text=True, env=env, timeout=600)
+        p = subprocess.run([exe, "runs=%d" % runs], stdout=subprocess.PIPE, stderr=subprocess.PIPE, text=True, env=env, timeout=900)
     except subprocess.TimeoutExpired:
-        return {"tsan": "timed out (a free-running hang is C04's subject)"}, []
+        return {"tsan_%s" % which: "timed out (a free-running hang is C04's subject)"}, []
     if "ThreadSanitizer" not in p.stderr and p.returncode != 0:
-        return {"tsan": "could not run (rc=%d): %s" % (p.returncode, p.stderr[-200:])}, []
+        return {"tsan_%s" % which: "could not run (rc=%d): %s" % (p.returncode, p.stderr[-200:])}, []
     reports = p.stderr.split("WARNING: ThreadSanitizer: data race")[1:]
     ignored, viol = {}, []
+    wanted = BUFFER_FUNCS if which == "pipe" else STREAM_FUNCS
     for r in reports:
         stacks = re.split(r"\n\s*\n", r)
         tops = []
@@ -110,16 +128,24 @@ def tsan_aux(tier):
             fr = [re.sub(r"\(.*", "", l.split(None, 1)[1]).strip() if len(l.split(None, 1)) > 1 else "" for l in st.splitlines() if re.match(r"\s+#\d+ ", l)]
             tops.append([f for f in fr if f][:4])
         flat = [f for t in tops for f in t]
-        if any(any(b in f for b in BUFFER_FUNCS) for f in flat):
-            k = "tsan-race:" + "~".join(t[0].split("(")[0] if t else "?" for t in tops)
-            viol.append({"key": k, "desc": "free-running ThreadSanitizer reports a data race on chunk-buffer state that the hooked exploration should also see: " + " / ".join(" < ".join(t[:3]) for t in tops),
-                         "replay": {"harness": "tsan_pipe", "args": "runs=%d" % runs, "note": "sampling: re-run the auxiliary pass"}, "prop": "C14", "confirmed": True})
+        k = "~".join(t[0].split("(")[0] if t else "?" for t in tops)
+        if which == "pipe" and any(any(b in f for b in wanted) for f in flat):
+            viol.append({"key": "tsan-race:" + k, "desc": "free-running ThreadSanitizer reports a data race on chunk-buffer state that the hooked exploration should also see: " + " / ".join(" < ".join(t[:3]) for t in tops),
+                         "replay": {"harness": name, "args": "runs=%d" % runs, "note": "sampling: re-run the auxiliary pass"}, "prop": "C14", "confirmed": True})
+        elif which == "streams" and all(any(b in f for b in wanted) for f in [t[0] for t in tops if t]) and not any(any(b in f for b in ("iobuffer::", "bufferctrl::")) for f in [t[0] for t in tops if t]):
+            viol.append({"key": "tsan-race-in-stream-code", "desc": "free-running ThreadSanitizer: two workers race inside the cipher-stream code (streams are supposed to share nothing), so the output depends on scheduling: " + " / ".join(" < ".join(t[:3]) for t in tops),
+                         "replay": {"harness": name, "args": "runs=%d" % runs, "note": "sampling: re-run the auxiliary pass"}, "prop": "C03", "confirmed": True})
         else:
-            k = "~".join(t[0].split("(")[0] if t else "?" for t in tops)
             ignored[k] = ignored.get(k, 0) + 1
     m = re.search(r'"pipeline_runs":(\d+)', p.stdout)
-    return {"tsan_free_running_pipeline_runs": int(m.group(1)) if m else 0, "tsan_reports_on_buffer_state": len(viol),
-            "tsan_reports_ignored_not_chunk_buffer": ignored, "tsan_note": "auxiliary sampling pass; reports on bufferctrl::state (un-locked cmpstate vs set_update) are not accesses to a chunk buffer"}, viol
+    mm = re.search(r'"roundtrip_mismatches":(\d+)', p.stdout)
+    pre = "tsan_" if which == "pipe" else "tsan_streams_"
+    info = {pre + "free_running_pipeline_runs": int(m.group(1)) if m else 0, pre + "reports_relevant": len(viol), pre + "reports_ignored": ignored,
+            pre + "note": "auxiliary sampling pass (never counted as exhaustive); reports on bufferctrl::state (un-locked cmpstate vs set_update) are not accesses to a chunk buffer"}
+    if which == "streams" and mm and int(mm.group(1)) > 0:
+        viol.append({"key": "free-running-roundtrip-mismatch", "desc": "%s of the free-running real-stream round trips did not restore the plaintext" % mm.group(1),
+                     "replay": {"harness": name, "args": "runs=%d" % runs, "note": "sampling"}, "prop": "C03", "confirmed": True})
+    return info, viol
 
 
 def run(pid, tier, replay=None):
@@ -129,11 +155,12 @@ def run(pid, tier, replay=None):
     try:
         exes = {}
 
-        def exe(bufsz, san):
-            k = (bufsz, san)
+        def exe(bufsz, san, instr=False):
+            k = (bufsz, san, instr)
             if k not in exes:
                 exes[k] = c.build_exe("pipe_explore", ["harness/pipe_explore.cpp"],
-                                      defs=["-DWENCRY_VERIF_BUF_SZ=%d" % bufsz, "-DWENCRY_VERIF_HBUF_SZ=2"], libs=["-lcrypto"], sanitize=san)
+                                      defs=["-DWENCRY_VERIF_BUF_SZ=%d" % bufsz, "-DWENCRY_VERIF_HBUF_SZ=2"], libs=["-lcrypto"], sanitize=san,
+                                      instrument_sources=INSTR_SOURCES if instr else ())
             return exes[k]
 
         if replay:
@@ -142,15 +169,18 @@ def run(pid, tier, replay=None):
         tmpd = os.path.join(c.BUILD, "tmp", "%s-%d" % (pid, os.getpid()))
         os.makedirs(tmpd, exist_ok=True)
         jobs, meta = [], []
-        per_job_deadline = int(deadline_s * 0.8)
+        until = int(t0 + deadline_s * 0.9)  # the harness stops by itself (and reports what it covered) before the driver would kill it
         for ci, (bufsz, san, args, nsh) in enumerate(plan):
             for sh in range(nsh):
                 hf = os.path.join(tmpd, "h%d_%d.bin" % (ci, sh))
-                argv = [exe(bufsz, san)] + ["%s=%s" % kv for kv in args.items()] + ["shard=%d" % sh, "nshards=%d" % nsh, "hashout=" + hf, "deadline=%d" % per_job_deadline]
+                argv = [exe(bufsz, san, bool(args.get("instr")))] + ["%s=%s" % kv for kv in args.items()] + ["shard=%d" % sh, "nshards=%d" % nsh, "hashout=" + hf, "until=%d" % until]
                 jobs.append(argv)
                 meta.append((ci, hf))
-        # longest first
-        order = sorted(range(len(jobs)), key=lambda i: -plan[meta[i][0]][3])
+        # cheapest first: everything that can complete does; the dearest configurations are the ones the deadline cuts
+        def cost(i):
+            bufsz, san, args, nsh = plan[meta[i][0]]
+            return (args.get("T", 1) * 10 + args.get("bound", 9) + (50 if args.get("sleep") and args.get("T", 1) > 1 else 5 if args.get("sleep") else 0) + (3 if san == "address" else 0), args.get("len", 0))
+        order = sorted(range(len(jobs)), key=cost)
         res = c.run_jobs([jobs[i] for i in order], deadline=t0 + deadline_s)
     except c.CannotDecide as e:
         c.log(str(e))
@@ -158,9 +188,9 @@ def run(pid, tier, replay=None):
     agg = c.Agg()
     agg.add(res)
     aux = {}
-    if pid == "C14":
+    if pid in ("C14", "C03"):
         try:
-            aux, tv = tsan_aux(tier)
+            aux, tv = tsan_aux(tier, "pipe" if pid == "C14" else "streams")
             agg.viol.extend(tv)
         except c.CannotDecide as e:
             aux = {"tsan": "not built: " + str(e)[:120]}
@@ -235,7 +265,7 @@ def do_replay(pid, path, exe):
     r = json.load(open(path))["replay"]
     args = r["args"].split()
     bufsz = int(r.get("bufsz", 2))
-    argv = [exe(bufsz, "none")] + [a for a in args if not a.startswith("bufsz=")] + ["replay=" + ",".join(map(str, r["schedule"])) if r["schedule"] else "replay="]
+    argv = [exe(bufsz, "none", any(a == "instr=1" for a in args))] + [a for a in args if not a.startswith("bufsz=")] + ["replay=" + ",".join(map(str, r["schedule"])) if r["schedule"] else "replay="]
     env = dict(os.environ)
     env.update(c.HARNESS_ENV)
     p = subprocess.run(argv, stdout=subprocess.PIPE, text=True, env=env)
